@@ -310,7 +310,25 @@ func runC10(c *Ctx) {
 					visit(x)
 				case *ssa.ChangeInterface:
 					visit(x)
-				case *ssa.FieldAddr, *ssa.DebugRef, *ssa.Store:
+				case *ssa.FieldAddr, *ssa.DebugRef:
+				case *ssa.Store:
+					// kept in a field of a module struct (a context object whose methods do the
+					// exchange): every read of that field is the connection again
+					if fa, isFA := x.Addr.(*ssa.FieldAddr); isFA && x.Val == v {
+						fld := fieldOf(fa)
+						if fld.Pkg() != nil && strings.HasPrefix(fld.Pkg().Path(), modPath) && !fld.Exported() {
+							for _, fn2 := range w.ModFns {
+								w.eachInstr(fn2, func(i2 ssa.Instruction) {
+									if ld, isLd := i2.(*ssa.UnOp); isLd && ld.Op == token.MUL {
+										if fa2, ok2 := ld.X.(*ssa.FieldAddr); ok2 && fieldOf(fa2) == fld {
+											flowFns[fn2] = true
+											visit(ld)
+										}
+									}
+								})
+							}
+						}
+					}
 				case ssa.CallInstruction:
 					cc := x.Common()
 					if cal := cc.StaticCallee(); cal != nil {
